@@ -853,3 +853,27 @@ E('C02', 'ne-form', BLK, """        previous = self._output
                 return
             self.log_debug("output: %s (unchanged)", value)
 """)
+
+# ----------------------------------------------------------------------------- C15
+V('C15', 'finalize-no-resolve', SIM, "            self._resolver.resolve()\n            self._finalize()\n            self._finalized = True\n", "            self._finalize()\n            self._finalized = True\n", 'R15.1')
+V('C15', 'flag-first', SIM, "            self._resolver.resolve()\n            self._finalize()\n            self._finalized = True\n", "            self._finalized = True\n            self._resolver.resolve()\n            self._finalize()\n", 'R15.1')
+V('C15', 'connect-ungated', BLK, "        self.circuit.check_not_finalized()\n        if self.inputs:\n", "        if self.inputs:\n", 'R15.3')
+V('C15', 'storage-ungated', SIM, "        self.check_not_finalized()\n        self.persistent_dict = persistent_dict\n", "        self.persistent_dict = persistent_dict\n", 'R15.3')
+V('C15', 'addblock-overwrites', SIM, """        if blk.name in self._blocks:
+            raise ValueError(f"Duplicate block name {blk.name}")
+""", "", 'R15.3')
+V('C15', 'gate-ignores-finalized', SIM, """        if self._finalized:
+            raise EdzedInvalidState("Not allowed in a finalized circuit")
+""", "", 'R15.3')
+V('C15', 'inverter-always-new', SIM, "            if blk.startswith('_') and blk not in self._blocks:\n", "            if blk.startswith('_'):\n", 'R15.4')
+V('C15', 'inverter-wrong-input', SIM, ").connect(blk.removeprefix('_not_'))", ").connect(blk)", 'R15.4')
+V('C15', 'resolver-wrong-attr', FIL, "simulator.get_circuit().resolve_name(self, '_ctrl_blk')\n", "simulator.get_circuit().resolve_name(self, '_ctrl_block')\n", 'R15.5')
+V('C15', 'resolve-no-store', SIM, "            self._check_type(obj, attr, blk, block_type)\n            setattr(obj, attr, blk)\n        self._unresolved.clear()", "            self._check_type(obj, attr, blk, block_type)\n        self._unresolved.clear()", 'R15.5')
+V('C15', 'register-drops-names', SIM, "        if isinstance(blk, str):\n            # name to be resolved\n            self._unresolved.append((obj, attr, block_type))", "        if isinstance(blk, str):\n            # name to be resolved\n            pass", 'R15.5')
+V('C15', 'getconf-list', BLK, "                iname: tuple(g.name for g in ival) if isinstance(ival, tuple) else ival.name", "                iname: tuple(g.name for g in ival) if isinstance(ival, list) else ival.name", 'R15.6')
+V('C15', 'connect-stores-list', BLK, "            self.inputs[iname] = tuple(inp) if _is_multiple(inp) else inp", "            self.inputs[iname] = list(inp) if _is_multiple(inp) else inp", 'R15.6')
+V('C15', 'oconn-other-block', SIM, "                        self._blocks[inp.name].oconnections.add(blk)\n", "                        blk.oconnections.add(inp)\n", 'R15.2')
+V('C15', 'event-dest-any-block', BLK, "        simulator.get_circuit().resolve_name(self, '_dest', SBlock)", "        simulator.get_circuit().resolve_name(self, '_dest')", 'R15.5')
+V('C15', 'unfinalize', SIM, "    def is_finalized(self) -> bool:\n        \"\"\"Return True only if finalize() was called.\"\"\"\n        return self._finalized\n", "    def is_finalized(self) -> bool:\n        \"\"\"Return True only if finalize() was called.\"\"\"\n        return self._finalized\n\n    def unfreeze(self) -> None:\n        self._finalized = False\n", 'R15.1')
+E('C15', 'resolve-after-connect', SIM, "            self._resolver.resolve()\n            self._finalize()\n            self._finalized = True\n", "            self._finalize()\n            self._resolver.resolve()\n            self._finalized = True\n")
+E('C15', 'gate-alias', BLK, "        self.circuit.check_not_finalized()\n        if self.inputs:\n", "        circuit = self.circuit\n        circuit.check_not_finalized()\n        if self.inputs:\n")
